@@ -68,6 +68,13 @@ PROBES: dict = {
         PROG([ASSIGN("xs", LIST(I(1)))], [APPEND("xs", AREAD()), WRITE(CALL("len", V("xs")))], ain=[5, 6, 7], npass=3, pid="probe-len-loop"),
         PROG([ASSIGN("xs", LIST(I(1), I(2))), IF([(CMP(AREAD(), (">", I(0))), [APPEND("xs", I(9))])]), WRITE(CALL("len", V("xs")))], ain=[0], pid="probe-len-branch"),
         PROG([ASSIGN("s", S("ab"))], [WRITE(CALL("len", V("s"))), ASSIGN("s", BIN("+", V("s"), S("x")))], npass=3, pid="probe-len-str-loop")]),
+    # (programs of the same trigger class that CONFORM on the pinned tree and are recorded as such - any other outcome is a violation:
+    #  a constant-count loop leaves through `break` / `continue` before it reaches the re-binding, so the name keeps its old value)
+    "len-folded-stale#conforming": ("C03", "len-after-nested-mutation", [
+        PROG([ASSIGN("tg", S("xy")), FOR("i", I(3), [IF([(CMP(AREAD(), (">", I(0))), [BREAK])]), ASSIGN("tg", S("long"))]), WRITE(CALL("len", V("tg"))), WRITE(V("tg"))],
+             ain=[1, 1, 1], pid="probe-len-loopjump-break"),
+        PROG([ASSIGN("tc", S("xy")), ASSIGN("xs", LIST(I(1), I(2))), FOR("i", I(3), [IF([(CMP(AREAD(), (">", I(0))), [CONTINUE])]), ASSIGN("tc", S("longer")), ASSIGN("xs", LIST(I(1), I(2)))]),
+              WRITE(CALL("len", V("tc"))), WRITE(BIN("+", CALL("len", V("xs")), I(10)))], ain=[1, 1, 1], pid="probe-len-loopjump-continue")]),
     # ---- C02
     "name-retyped-first-assignment-wins": ("C02", "name-retyped", [
         PROG([ASSIGN("x", I(1)), ASSIGN("x", F(2.5)), WRITE(V("x"))], pid="probe-retype-int-float"),
